@@ -169,6 +169,11 @@ func c11Templates() []c11Template {
 		{name: "topk(1) by(a)(sum by(a,b))", build: func(x refmodel.Expr) refmodel.Expr {
 			return tk("topk", 1, g(false, "a"), va("sum", g(false, "a", "b"), x))
 		}},
+		// one label set grouped by two different lists, one after the other
+		{name: "sum by(a)(topk(5) by(b))", build: func(x refmodel.Expr) refmodel.Expr { return va("sum", g(false, "a"), tk("topk", 5, g(false, "b"), x)) }},
+		{name: "count by(b)(bottomk(2) by(a))", build: func(x refmodel.Expr) refmodel.Expr { return va("count", g(false, "b"), tk("bottomk", 2, g(false, "a"), x)) }},
+		{name: "max by(a,b)(topk(2) by(a))", build: func(x refmodel.Expr) refmodel.Expr { return va("max", g(false, "a", "b"), tk("topk", 2, g(false, "a"), x)) }},
+		{name: "sum without(a)(bottomk(5) by(a))", build: func(x refmodel.Expr) refmodel.Expr { return va("sum", g(true, "a"), tk("bottomk", 5, g(false, "a"), x)) }},
 		{name: "count(sum by(a,b))", build: func(x refmodel.Expr) refmodel.Expr { return va("count", nil, va("sum", g(false, "a", "b"), x)) }},
 		{name: "sum by()(count by(b))", build: func(x refmodel.Expr) refmodel.Expr { return va("sum", g(false), va("count", g(false, "b"), x)) }},
 	}
@@ -361,8 +366,8 @@ func c11Run(r *vkit.Run) {
 				default:
 					continue
 				}
-				if strings.Contains(t.name, "(") && !strings.Contains(t.name, " by(") && !strings.Contains(t.name, " without(") {
-					continue // nestings
+				if strings.Contains(t.name, "(") && !strings.Contains(t.name, " by(") && !strings.Contains(t.name, " without(") || strings.Contains(t.name, ")(") {
+					continue // nestings (where a NaN ranks inside topk / bottomk is not stated)
 				}
 				c11Check(r, c11Input{Series: sub, Unwrap: true, Query: t.name, Range: false, Bound: bound, Special: sp}, nil)
 			}
